@@ -27,5 +27,609 @@ def sym_contact(A, n, link_idx, prefix='c'):
   return c
 
 
+
+
+# =====================================================================================================================================
+from fractions import Fraction
+from verif.contracts.common import (Obligation, Result, sym_call, Interp, Z3Alg, RingAlg, smt_prove, combine, smt_custom, ring_equal,
+                                    PROVED, REFUTED, UNDECIDED, ERROR, is_sym, isc, seed)
+from verif.contracts import cuts, physsys
+
+LEVEL = 'other'
+EXPECTED_MIN = {'quick': 12, 'thorough': 14}
+EXPLANATION = ('PROVED (z3, relational where noted; transcendental frame helpers cut as uninterpreted functions shared by both runs): joint limits that are not reached '
+               'change nothing in the spring joint kernels and in the positional joint update (limited model vs the same model without any limit); generalized limit and '
+               'contact rows are masked to zero when not violated and a zero constraint jacobian gives zero constraint force for any solver output; contacts with '
+               'dist >= 0 produce exactly zero update in the spring and positional contact resolution; link rotations returned by a step are unit (each is the output of a '
+               'normalisation of a non-zero quaternion) with and without contacts; a resting penetrating body is only pushed along the normal.  BOUNDED (the only evidence '
+               'for the history clauses): separated scene vs collisions disabled, limits removed vs inside limits, resting height / sinking / rebound ratio over drop histories.')
+TRUSTED = ['kinematics.link_to_joint_frame / axis_angle_ang / math.signed_angle / safe_norm as uninterpreted functions (same function in both runs)',
+           'contact.get / mjx.collision cut: any contact set', 'jaxopt.ProjectedGradient cut: returns some vector']
+ASSUMPTIONS = ['exact reals', 'resting height, sinking depth and rebound ratio are properties of iterated float dynamics: bounded stand-in only',
+               'generalized solver convergence is not claimed']
+BOUNDED_RULE = 'scenes (generator models with geoms + plane; drop tests) x pipelines; non-trivial = distinct (scene, pipeline, clause)'
+
+UFCUTS = ('brax.kinematics:link_to_joint_frame', 'brax.kinematics:axis_angle_ang', 'brax.math:safe_norm')
+
+
+def _link_dof(A, nd, kinds, limit):
+  """single-link arguments of the spring kernels; kinds: string over h/s per dof"""
+  from brax.base import Link, DoF, Transform, Motion, Inertia
+  z = jp.zeros(())
+  T0 = Transform(pos=jp.zeros(3), rot=jp.array([1.0, 0, 0, 0]))
+  raw = {k: A.var(k) for k in ('ks', 'kv', 'kl', 'ka')}
+  link = Link(transform=T0, joint=T0, inertia=Inertia(transform=T0, i=jp.eye(3), mass=jp.ones(())), invweight=z,
+              constraint_stiffness=Sym(raw['ks']), constraint_vel_damping=Sym(raw['kv']), constraint_limit_stiffness=Sym(raw['kl']), constraint_ang_damping=Sym(raw['ka']))
+  ang = np.empty((nd, 3), dtype=object)
+  vel = np.empty((nd, 3), dtype=object)
+  for k, c in enumerate(kinds):
+    ax = list(A.arr('ax%d' % k, (3,)))
+    ang[k], vel[k] = (ax, [0, 0, 0]) if c == 'h' else ([0, 0, 0], ax)
+  lo, hi = A.arr('lo', (nd,)), A.arr('hi', (nd,))
+  mk = lambda lim: DoF(motion=Motion(ang=Sym(ang), vel=Sym(vel)), armature=jp.zeros(nd), stiffness=jp.zeros(nd), damping=jp.zeros(nd),
+                       limit=(Sym(lo), Sym(hi)) if lim else None, invweight=jp.zeros(nd), solver_params=jp.zeros((nd, 7)))
+  j = Transform(pos=Sym(A.arr('jpos', (3,))), rot=Sym(A.arr('jrot', (4,))))
+  jd = Motion(ang=Sym(A.arr('jda', (3,))), vel=Sym(A.arr('jdv', (3,))))
+  tau = Sym(A.arr('tau', (nd,)))
+  raw.update(lo=lo, hi=hi, ang=ang, vel=vel, jpos=j.pos.arr)
+  return link, j, jd, mk, tau, raw
+
+
+def spring_limits_inert(kinds, tiers):
+  nd = len(kinds)
+
+  def run():
+    import z3
+    from verif.engine.opaque import cut
+    from brax.spring import joints
+    A = Z3Alg()
+    link, j, jd, mk, tau, raw = _link_dof(A, nd, kinds, True)
+    fn = {1: joints._one_dof, 2: joints._two_dof, 3: joints._three_dof}[nd]
+    H = {t: cuts.uf_handler(t.split(':')[1]) for t in UFCUTS}
+    with cut(*UFCUTS):
+      I1 = Interp(A, cuts=H)
+      f_lim = sym_call(I1, fn, link, j, jd, mk(True), tau)
+      I2 = Interp(A, cuts=H)
+      f_no = sym_call(I2, fn, link, j, jd, mk(False), tau)
+    # the joint coordinates, as the kernel computes them: angles = outputs 3..5 of axis_angle_ang; slide coordinate = j.pos . axis
+    aa = [c for c in I1.calls if c[0].endswith('axis_angle_ang')]
+    if len(aa) != 1:
+      return Result(UNDECIDED, 'expected one axis_angle_ang call, found %d' % len(aa))
+    angles = [aa[0][3][3 + k].item() for k in range(3)]
+    jf = [c for c in I1.calls if c[0].endswith('link_to_joint_frame')]
+    jf_vel = jf[0][3][1]                 # joint_frame.vel (3,3), as the kernel sees it
+    pre = []
+    for k, c in enumerate(kinds):
+      if c == 'h':
+        coords = [angles[k]]
+      else:
+        # the kernels read the slide coordinate as j.pos . joint_frame.vel[0] (1-dof) or j.pos . motion.vel[k] (2/3-dof)
+        coords = [sum(raw['jpos'][i] * raw['vel'][k][i] for i in range(3))]
+        if nd == 1:
+          coords.append(sum(raw['jpos'][i] * jf_vel[0][i] for i in range(3)))
+      for coord in coords:
+        pre += [raw['lo'][k] <= coord, coord <= raw['hi'][k]]
+      axk = raw['ang'][k] if c == 'h' else raw['vel'][k]
+      pre.append(sum(e * e for e in axk) == 1)            # load_model: joint axes are unit vectors
+    goal = [a == b for a, b in zip(list(f_lim.ang) + list(f_lim.vel), list(f_no.ang) + list(f_no.vel))]
+    r = smt_prove(A, pre, goal, timeout_s=120, seed=seed())
+    if r.verdict == REFUTED:
+      r.replay = _native_limits('spring')
+    return r
+  return Obligation('C06/spring._%s_dof/limits_inert[%s]' % ({1: 'one', 2: 'two', 3: 'three'}[nd], kinds), 'brax.spring.joints:_%s_dof' % {1: 'one', 2: 'two', 3: 'three'}[nd],
+                    'relational: with every joint coordinate inside [lo, hi], the kernel with dof.limit = (lo, hi) returns exactly the force it returns with dof.limit = None, '
+                    'for all link parameters, states and controls', run, backend='smt', tiers=tiers, budget=400)
+
+
+def positional_limits_inert(word, tiers):
+  def run():
+    import z3
+    from verif.engine.opaque import cut
+    from brax.positional import joints
+    from brax.base import Transform
+    A = Z3Alg()
+    sys = physsys.load(physsys.xml_world_root(word))
+    nv = sys.qd_size()
+    lo, hi = A.arr('lo', (nv,)), A.arr('hi', (nv,))
+    # symbolic joint axes with load_model's structure (hinge: vel = 0, slide: ang = 0)
+    c_ang = np.asarray(sys.dof.motion.ang)
+    ang = np.empty((nv, 3), dtype=object)
+    vel = np.empty((nv, 3), dtype=object)
+    RAT = [[Fraction(3, 5), Fraction(4, 5), 0], [0, Fraction(3, 5), Fraction(4, 5)], [Fraction(4, 5), 0, Fraction(3, 5)]]
+    for k in range(nv):
+      if np.any(c_ang[k] != 0):
+        ax = list(A.arr('ax%d' % k, (3,)))
+        ang[k], vel[k] = ax, [0, 0, 0]
+      else:
+        # slide axes are instantiated at exact rational unit vectors: `motion.vel.any()` then selects between 0 and +-inf limits concretely
+        ang[k], vel[k] = [0, 0, 0], RAT[k]
+    mot = sys.dof.motion.replace(ang=Sym(ang), vel=Sym(vel))
+    sysL = sys.replace(dof=sys.dof.replace(motion=mot, limit=(Sym(lo), Sym(hi))))
+    sysN = sys.replace(dof=sys.dof.replace(motion=mot, limit=None))
+    j = Transform(pos=Sym(A.arr('jpos', (1, 3))), rot=Sym(A.arr('jrot', (1, 4))))
+    targets = UFCUTS + ('brax.math:normalize', 'brax.math:signed_angle', 'brax.math:quat_rot_axis', 'brax.math:rotate')
+    H = {t: cuts.uf_handler(t.split(':')[1]) for t in targets}
+
+    def f(s, jj):
+      return jax.vmap(joints._three_dof_joint_update)(jj, *joints._sphericalize(s, jj))
+    with cut(*targets):
+      I1 = Interp(A, cuts=H)
+      dL = sym_call(I1, f, sysL, j)
+      I2 = Interp(A, cuts=H)
+      dN = sym_call(I2, f, sysN, j)
+    # joint coordinates as the update computes them: ph_k = k-th signed_angle (UF) ; slide: motion.vel . x.pos
+    sa = [c for c in I1.calls if c[0].endswith('signed_angle')]
+    pre = []
+    ph = sa[0][3][0].reshape(-1) if sa else []
+    for k in range(nv):
+      if np.any(c_ang[k] != 0):
+        pre += [lo[k] <= ph[k], ph[k] <= hi[k]]
+      else:
+        xp = sum(vel[k][i] * j.pos.arr[0][i] for i in range(3))
+        pre += [lo[k] <= xp, xp <= hi[k]]
+    goal = [a == b for a, b in zip(list(dL.pos.reshape(-1)) + list(dL.rot.reshape(-1)), list(dN.pos.reshape(-1)) + list(dN.rot.reshape(-1)))]
+    r = smt_prove(A, pre, goal, timeout_s=200, seed=seed())
+    if r.verdict == REFUTED:
+      r.replay = _native_limits('positional')
+    return r
+  return Obligation('C06/positional._sphericalize+_three_dof_joint_update/limits_inert[%s]' % word, 'brax.positional.joints:_sphericalize,_three_dof_joint_update',
+                    'relational: the joint position update of a model whose joints all have (unreached) limits equals that of the same model with no limit at all -- '
+                    'in particular the padded (inactive) axes are frozen in both', run, backend='smt', tiers=tiers, budget=600)
+
+
+TWO_HINGE = '''<mujoco><compiler angle="radian"/><option timestep="0.005" gravity="0 0 -9.81"/><worldbody>
+<body name="a" pos="0 0 1" quat="0.9238795 0.3826834 0 0"><joint name="j0" type="hinge" axis="0 1 0" %s/><geom type="capsule" size="0.04 0.2" pos="0.2 0 0" quat="0.7071 0 0.7071 0" contype="0" conaffinity="0"/>
+ <body name="b" pos="0.4 0 0"><joint name="j1" type="hinge" axis="0 0.6 0.8" %s/><geom type="capsule" size="0.04 0.2" pos="0.2 0 0" quat="0.7071 0 0.7071 0" contype="0" conaffinity="0"/></body>
+</body></worldbody></mujoco>'''
+
+
+def _native_limits(pipeline, steps=20):
+  """the same 2-hinge model with a never-reached +-3 rad range vs without any range"""
+  import importlib
+  from brax.io import mjcf
+  pl = importlib.import_module('brax.%s.pipeline' % pipeline)
+  lim = 'limited="true" range="-3 3"'
+  out = []
+  for xml in (TWO_HINGE % (lim, lim), TWO_HINGE % ('', '')):
+    sys = mjcf.loads(xml)
+    st = pl.init(sys, jp.array([0.3, -0.2]), jp.array([0.5, -0.4]))
+    step = jax.jit(pl.step)
+    for _ in range(steps):
+      st = step(sys, st, jp.zeros(0))
+    out.append(np.asarray(st.q))
+  d = float(np.abs(out[0] - out[1]).max())
+  return {'reproduced': d > 1e-6, 'q_with_unreached_limits': out[0].tolist(), 'q_without_limits': out[1].tolist(), 'max_difference': d, 'steps': steps,
+          'pipeline': pipeline, 'model': 'two hinges, range +-3 rad never reached'}
+
+
+def contact_inert(pipeline, ncon, tiers):
+  def run():
+    import z3
+    from verif.engine.opaque import cut
+    from verif.contracts import C04
+    import brax.contact as bc
+    A = Z3Alg()
+    xml = ('<mujoco><worldbody><body name="a" pos="0 0 1"><freejoint/><geom size="0.1"/></body>'
+           '<body name="b" pos="0.5 0 1"><freejoint/><geom size="0.1"/></body></worldbody></mujoco>')
+    sys = physsys.load(xml)
+    st, raw = C04.sym_pipeline_state(A, sys, pipeline)
+    c = sym_contact(A, ncon, link_idx=(np.array([0, -1][:ncon] if ncon <= 2 else [0, -1, 0]), np.array([1, 0][:ncon] if ncon <= 2 else [1, 0, 1])))
+    pre = list(c.pre) + [d >= 0 for d in c.dist] + [raw['mass'][i] > 0 for i in range(2)]
+    I = Interp(A, cuts={'brax.math:safe_norm': cuts.uf_handler('safe_norm'), 'brax.com:inv_inertia': cuts.uf_handler('inv_inertia'), 'brax.math:normalize': cuts.uf_handler('normalize')})
+    if pipeline == 'spring':
+      from brax.spring import collisions
+      real_get = bc.get
+
+      def f(s, cc):
+        bc.get = lambda sys_, x_: cc
+        try:
+          return collisions.resolve(sys, s)
+        finally:
+          bc.get = real_get
+      with cut('brax.math:safe_norm'):
+        xdv = sym_call(I, f, st, c.obj)
+      goal = [e == 0 for e in list(xdv.vel.reshape(-1)) + list(xdv.ang.reshape(-1))]
+    else:
+      from brax.positional import collisions
+      from brax.base import Transform, Motion
+      prev = Transform(pos=Sym(A.arr('pp', (2, 3))), rot=Sym(A.arr('pr', (2, 4))))
+      xdprev = Motion(ang=Sym(A.arr('pa', (2, 3))), vel=Sym(A.arr('pv', (2, 3))))
+      sysm = C04.with_sym_mass(sys, raw['mass'])
+      with cut('brax.math:safe_norm', 'brax.com:inv_inertia'):
+        (x_i, dl), xdv = sym_call(I, lambda ss_, s, p, xp, cc: (lambda r: (r, collisions.resolve_velocity(ss_, s, xp, cc, r[1])))(_resolve_pos_raw(collisions, ss_, s, p, cc)), sysm, st, prev, xdprev, c.obj)
+      goal = [a == b for a, b in zip(x_i.pos.reshape(-1), raw['pos'].reshape(-1))] + [e == 0 for e in dl.reshape(-1)]
+      goal += [e == 0 for e in list(xdv.vel.reshape(-1)) + list(xdv.ang.reshape(-1))]
+    r = smt_prove(A, pre, goal, timeout_s=200, seed=seed())
+    if r.verdict == REFUTED:
+      r.replay = _native_separated(pipeline)
+    return r
+  return Obligation('C06/%s.collisions/inert[%d contacts]' % (pipeline, ncon), 'brax.%s.collisions:resolve%s' % (pipeline, '' if pipeline == 'spring' else '_position,resolve_velocity'),
+                    'every candidate contact has dist >= 0  =>  the contact resolution changes nothing (zero delta-velocity; positions unchanged and dlambda = 0), for any contact '
+                    'geometry, friction, elasticity and state (contacts with the world included)', run, backend='smt', tiers=tiers, budget=900)
+
+
+def _resolve_pos_raw(collisions, sys, s, p, cc):
+  """resolve_position with the final quaternion renormalisation left to the caller's obligation (positions and dlambda are compared)"""
+  return collisions.resolve_position(sys, s, p, cc)
+
+
+def _native_separated(pipeline):
+  import importlib
+  from brax.io import mjcf
+  pl = importlib.import_module('brax.%s.pipeline' % pipeline)
+  base = ('<mujoco><option timestep="0.004"/><worldbody><geom name="floor" type="plane" size="5 5 0.1" %s/>'
+          '<body name="a" pos="0 0 1.0" quat="0.8 0.6 0 0"><freejoint/><geom type="capsule" size="0.08 0.15" %s/>'
+          '<body name="b" pos="0.3 0 0.1"><joint type="hinge" axis="0 1 0"/><geom size="0.1" pos="0.2 0 0" %s/></body></body></worldbody></mujoco>')
+  off = 'contype="0" conaffinity="0"'
+  outs = []
+  for attrs in (('', '', ''), (off, off, off)):
+    sys = mjcf.loads(base % attrs)
+    st = pl.init(sys, sys.init_q, jp.array([0.3, 0, 0, 0.2, 0.5, 0, 1.0]))
+    for _ in range(3):
+      st = jax.jit(pl.step)(sys, st, jp.zeros(0))
+    outs.append(np.concatenate([np.asarray(st.q), np.asarray(st.qd)]))
+  d = float(np.abs(outs[0] - outs[1]).max())
+  return {'reproduced': d > 1e-9, 'max_difference_separated_vs_no_collision_geometry': d, 'pipeline': pipeline}
+
+
+def generalized_masks():
+  def body(A):
+    import z3
+    from verif.engine.opaque import cut
+    from brax.generalized import constraint
+    sys = physsys.load(physsys.xml_world_root('hs'))
+    nv = sys.qd_size()
+    lo, hi = A.arr('lo', (nv,)), A.arr('hi', (nv,))
+    q, qd = A.arr('q', (nv,)), A.arr('qd', (nv,))
+    sp = A.arr('sp', (nv, 7))
+    sysL = sys.replace(dof=sys.dof.replace(limit=(Sym(lo), Sym(hi)), solver_params=Sym(sp), invweight=Sym(A.arr('iw', (nv,)))))
+    from verif.contracts.common import Stub
+    state = Stub(q=Sym(q), qd=Sym(qd))
+    def h_imp(I_, P, ins):
+      # VERIFIED contract (C06/generalized.constraint._imp_aref/range): dmin <= dmax  =>  dmin <= imp <= dmax
+      outs = cuts.uf_handler('imp_aref')(I_, P, ins)
+      prm = I_.lift(ins[0])
+      for b in range(prm.shape[0]):
+        A.assume += [outs[0][b] >= prm[b][2], outs[0][b] <= prm[b][3]]
+      return outs
+    with cut('brax.generalized.constraint:_imp_aref'):
+      I = Interp(A, cuts={'brax.generalized.constraint:_imp_aref': h_imp})
+      jac, diag, aref = sym_call(I, constraint.jac_limit, sysL, state)
+    pre = [z3.And(sp[k][2] > 0, sp[k][2] <= sp[k][3]) for k in range(nv)]
+    goal = []
+    for k in range(nv):
+      inside = z3.And(lo[k] <= q[k], q[k] <= hi[k])
+      row0 = z3.And(*[jac[k][c] == 0 for c in range(nv)] + [diag[k] == 0, aref[k] == 0])
+      goal.append(z3.Implies(inside, row0))
+    return pre, goal
+  return smt_custom('C06/generalized.constraint.jac_limit/masked', 'brax.generalized.constraint:jac_limit',
+                    'lo <= q_k <= hi  =>  row k of the limit jacobian, its diagonal regulariser and its reference acceleration are exactly 0 (any solver parameters)', body,
+                    cut_targets=())
+
+
+def imp_aref_range():
+  def body(A):
+    import z3
+    from brax.generalized import constraint
+    prm, pos, vel = A.arr('prm', (7,)), A.var('pos'), A.var('vel')
+    imp, aref = sym_call(Interp(A), constraint._imp_aref, Sym(prm), Sym(pos), Sym(vel))
+    return [prm[2] <= prm[3]], [imp.item() >= prm[2], imp.item() <= prm[3]]
+  return smt_custom('C06/generalized.constraint._imp_aref/range', 'brax.generalized.constraint:_imp_aref',
+                    'dmin <= dmax  =>  dmin <= impedance <= dmax for every position/velocity and every width/mid/power (jp.power uninterpreted): the contract used when '
+                    '_imp_aref is cut (so imp + 1e-8 > 0 whenever dmin > 0)', body)
+
+
+def generalized_force_inert():
+  def body(A):
+    from verif.engine.opaque import cut
+    from brax.generalized import constraint
+    from verif.contracts.common import Stub
+    sys = physsys.load(physsys.xml_world_root('hs'))
+    nv, nc = sys.qd_size(), 3
+    st = Stub(con_jac=jp.zeros((nc, nv)), mass_mx_inv=Sym(A.arr('mi', (nv, nv))), con_diag=Sym(A.arr('cd', (nc,))), con_aref=Sym(A.arr('ca', (nc,))),
+              qf_smooth=Sym(A.arr('qs', (nv,))))
+    import jaxopt
+
+    class PG:
+      def __init__(self, *a, **k):
+        pass
+
+      def run(self, x0):
+        from verif.engine.opaque import opaque
+        import types
+        return types.SimpleNamespace(params=opaque('jaxopt.run', lambda z: z)(x0 + 0.0))
+    real = jaxopt.ProjectedGradient
+    jaxopt.ProjectedGradient = PG
+    try:
+      qf = sym_call(Interp(A), constraint.force, sys, st)
+    finally:
+      jaxopt.ProjectedGradient = real
+    return [], [e == 0 if not isc(e) else bool(e == 0) for e in np.asarray(qf, dtype=object).reshape(-1)]
+  return smt_custom('C06/generalized.constraint.force/inert', 'brax.generalized.constraint:force',
+                    'con_jac = 0 (no violated limit, no penetrating contact)  =>  qf_constraint = 0 for ANY output of the projected-gradient solver (jaxopt cut)', body)
+
+
+def unit_rot(pipeline, with_contact, tiers):
+  def run():
+    import importlib
+    import z3
+    from verif.engine.opaque import cut
+    from verif.contracts import C04
+    import brax.contact as bc
+    A = Z3Alg()
+    xml = C04.tree_xml(C04.SHAPES['f-h'])
+    sys = physsys.load(xml)
+    pl = importlib.import_module('brax.%s.pipeline' % pipeline)
+    st, raw = C04.sym_pipeline_state(A, sys, pipeline)
+    n = sys.num_links()
+    c = sym_contact(A, 1, link_idx=(np.array([0]), np.array([1]))) if with_contact else None
+    unit_outs = []
+
+    def h_normalize(I, P, ins):
+      # verified contract (C09/normalize/contract_nontiny): non-tiny input => output is unit; side condition recorded
+      outs = I.fresh_outputs(P, tag='nrm')
+      x = outs[0]
+      rows = x.reshape((-1, x.shape[-1]))
+      for r in rows:
+        A.assume.append(sum(e * e for e in r) == 1)
+      I.side_notes.append('normalize input not tiny')
+      return outs
+    targets = list(C04.SPRING_KERNELS) if pipeline == 'spring' else ['brax.positional.joints:_three_dof_joint_update', 'brax.positional.joints:_sphericalize']
+    targets += ['brax.com:inv_inertia', 'brax.kinematics:inverse', 'brax.math:normalize', 'brax.math:safe_norm', 'brax.kinematics:world_to_joint']
+    if pipeline == 'spring':
+      targets += ['brax.spring.integrator:integrate']
+    real_get = bc.get
+
+    def f(s, cc):
+      bc.get = lambda sys_, x_: cc
+      try:
+        out = pl.step(sys, s, jp.zeros(sys.act_size()))
+        return out.x.rot, out.x_i.rot
+      finally:
+        bc.get = real_get
+    def h_integrate(I, P, ins):
+      # VERIFIED contract (C06/spring.integrator.integrate/unit): unit rotation in => unit rotation out
+      outs = I.fresh_outputs(P, tag='integ')
+      for o in outs:
+        if o.shape[-1:] == (4,):
+          for r in o.reshape((-1, 4)):
+            A.assume.append(sum(e * e for e in r) == 1)
+      return outs
+    with cut(*targets):
+      I = Interp(A, cuts={'brax.math:normalize': h_normalize, 'brax.spring.integrator:integrate': h_integrate})
+      rot, rot_i = sym_call(I, f, st, c.obj if c else None)
+    pre = [sum(e * e for e in st.x_i.rot.arr[i]) == 1 for i in range(n)] + [raw['mass'][i] > 0 for i in range(n)] + (list(c.pre) if c else [])
+    goal = [sum(e * e for e in rot[i]) == 1 for i in range(n)]
+    r = smt_prove(A, pre, goal, timeout_s=300, seed=seed())
+    if r.verdict == REFUTED:
+      r.replay = _native_unit(pipeline, with_contact)
+    return r
+  return Obligation('C06/%s.pipeline.step/unit_rot[%s]' % (pipeline, 'contact' if with_contact else 'no-contact'), 'brax.%s.pipeline:step' % pipeline,
+                    'unit link rotations in => unit link rotations out: every x.rot returned by step is the output of a normalisation (of a non-zero quaternion), %s contacts; '
+                    'the normalisations are defined' % ('with' if with_contact else 'without'), run, backend='smt', tiers=tiers, budget=900)
+
+
+def _native_unit(pipeline, with_contact, steps=20):
+  import importlib
+  from brax.io import mjcf
+  pl = importlib.import_module('brax.%s.pipeline' % pipeline)
+  attrs = '' if with_contact else 'contype="0" conaffinity="0"'
+  xml = TWO_HINGE.replace('contype="0" conaffinity="0"', attrs) % ('', '')
+  sys = mjcf.loads(xml)
+  st = pl.init(sys, jp.array([0.3, -0.2]), jp.array([1.5, -2.4]))
+  step = jax.jit(pl.step)
+  worst = 0.0
+  for _ in range(steps):
+    st = step(sys, st, jp.zeros(0))
+    worst = max(worst, float(jp.max(jp.abs(jp.sum(st.x.rot ** 2, axis=-1) - 1))))
+  return {'reproduced': worst > 1e-9, 'max | |rot|^2 - 1 | over %d steps' % steps: worst, 'pipeline': pipeline, 'collidable_geoms': with_contact}
+
+
+def integrate_unit(pipeline):
+  def body(A):
+    import z3
+    from brax.base import Transform, Motion
+    sys = physsys.load('<mujoco><worldbody><body name="a" pos="0 0 1"><freejoint/><geom size="0.1"/></body></worldbody></mujoco>')
+    dt = A.var('dt')
+    sys2 = sys.replace(opt=sys.opt.replace(timestep=Sym(dt)))
+    x = Transform(pos=Sym(A.arr('p', (1, 3))), rot=Sym(A.arr('r', (1, 4))))
+    xd = Motion(ang=Sym(A.arr('w', (1, 3))), vel=Sym(A.arr('v', (1, 3))))
+    xdv = Motion(ang=Sym(A.arr('dw', (1, 3))), vel=Sym(A.arr('dv', (1, 3))))
+    I = Interp(A, cuts={'brax.math:normalize': cuts.normalize_smt_nontiny})
+    if pipeline == 'spring':
+      from brax.spring import integrator
+      x2, xd2 = sym_call(I, integrator.integrate, sys2, x, xd, xdv)
+    else:
+      from brax.positional import integrator
+      x2, xd2 = sym_call(I, integrator.integrate_xdd, sys2, x, xd, xdv)
+    pre = [sum(e * e for e in x.rot.arr[0]) == 1]
+    goal = [sum(e * e for e in x2.rot[0]) == 1] + [c for _, c in A.side] + [t >= 1 for t in getattr(I, 'nontiny_side', [])]
+    return pre, goal
+  fn = {'spring': 'brax.spring.integrator:integrate', 'positional': 'brax.positional.integrator:integrate_xdd'}[pipeline]
+  return smt_custom('C06/%s/unit' % fn.replace('brax.', '').replace(':', '.'), fn,
+                    'unit rotation in => the integrated rotation is unit, and the normalisation is defined: |q + dt/2 (0,w) q|^2 = |q|^2 (1 + dt^2 |w|^2 / 4) > 0, for all '
+                    'angular velocities, velocity updates and time steps', body, timeout=200, budget=500,
+                    cut_targets=() if pipeline == 'spring' else ('brax.math:normalize',))
+
+
+def integrate_unit_ring():
+  def run():
+    from verif.engine.opaque import cut
+    from brax.base import Transform, Motion
+    from brax.positional import integrator
+    A = RingAlg()
+    sys = physsys.load('<mujoco><worldbody><body name="a" pos="0 0 1"><freejoint/><geom size="0.1"/></body></worldbody></mujoco>')
+    dt = A.var('dt')
+    sys2 = sys.replace(opt=sys.opt.replace(timestep=Sym(dt)))
+    r, w, dw = A.arr('r', (1, 4)), A.arr('w', (1, 3)), A.arr('dw', (1, 3))
+    A.unit(list(r[0]))
+    x = Transform(pos=Sym(A.arr('p', (1, 3))), rot=Sym(r))
+    xd = Motion(ang=Sym(w), vel=Sym(A.arr('v', (1, 3))))
+    xdd = Motion(ang=Sym(dw), vel=Sym(A.arr('dv', (1, 3))))
+    radicands = []
+
+    def h(I_, P, ins):
+      outs = cuts.normalize_ring(I_, P, ins)
+      xrow = I_.lift(ins[0]).reshape(-1)
+      n2 = 0
+      for e in xrow:
+        n2 = A.add(n2, A.mul(e, e))
+      radicands.append(A.normal(n2))
+      return outs
+    with cut('brax.math:normalize'):
+      I = Interp(A, cuts={'brax.math:normalize': h})
+      x2, xd2 = sym_call(I, integrator.integrate_xdd, sys2, x, xd, xdd)
+    res = [ring_equal(A, np.array([sum_sq_(A, x2.rot[0])], dtype=object), np.array([1], dtype=object), name='unit')]
+    # side condition of the normalize cut: the radicand equals 1 + (dt/2)^2 |w + dt dw|^2, a sum of squares plus one => >= 1 > 4e-16 (not tiny)
+    wn = [A.add(w[0][i], A.mul(dt, dw[0][i])) for i in range(3)]
+    sos = A.add(1, A.mul(A.mul(Fraction(1, 4), A.mul(dt, dt)), sum_sq_(A, wn)))
+    if len(radicands) != 1:
+      return Result(UNDECIDED, 'expected one normalize call')
+    res.append(ring_equal(A, np.array([radicands[0]], dtype=object), np.array([sos], dtype=object), name='radicand = 1 + (dt/2)^2 |w\'|^2'))
+    return combine(res)
+  return Obligation('C06/positional.integrator.integrate_xdd/unit', 'brax.positional.integrator:integrate_xdd',
+                    'unit rotation in => integrated rotation unit; the quaternion handed to normalize has squared norm 1 + (dt/2)^2 |w + dt*dw|^2 >= 1 (never tiny, never zero), '
+                    'for all angular velocities, accelerations and time steps', run, backend='ring', budget=300)
+
+
+def sum_sq_(A, v):
+  s = 0
+  for e in v:
+    s = A.add(s, A.mul(e, e))
+  return s
+
+
+def push_only(pipeline):
+  def body(A):
+    import z3
+    from verif.engine.opaque import cut
+    from verif.contracts import C04
+    import brax.contact as bc
+    xml = '<mujoco><worldbody><body name="a" pos="0 0 0.09"><freejoint/><geom size="0.1"/></body></worldbody></mujoco>'
+    sys = physsys.load(xml)
+    st, raw = C04.sym_pipeline_state(A, sys, pipeline)
+    c = sym_contact(A, 1, link_idx=(np.array([-1]), np.array([0])))
+    nrm = c.frame[0, 0]
+    I = Interp(A, cuts={'brax.math:safe_norm': cuts.uf_handler('safe_norm')})
+    pre = list(c.pre) + [c.dist[0] < 0, raw['mass'][0] > 0] + [e == 0 for e in st.xd_i.vel.arr.reshape(-1)] + [e == 0 for e in st.xd_i.ang.arr.reshape(-1)]
+    from brax.spring import collisions
+    real_get = bc.get
+    erp, dt = A.var('erp'), A.var('dt')
+    sys2 = sys.replace(baumgarte_erp=Sym(erp), opt=sys.opt.replace(timestep=Sym(dt)))
+    iinv = st.i_inv.arr
+    # inverse inertia positive semidefinite is what makes the effective mass positive; take the spherical case i_inv = k I, k >= 0
+    k = A.var('kinv')
+    for a_ in range(3):
+      for b_ in range(3):
+        pre.append(iinv[0][a_][b_] == (k if a_ == b_ else 0))
+    pre += [k >= 0, erp > 0, dt > 0]
+
+    def f(ss_, s, cc):
+      bc.get = lambda sys_, x_: cc
+      try:
+        return collisions.resolve(ss_, s)
+      finally:
+        bc.get = real_get
+    with cut('brax.math:safe_norm'):
+      xdv = sym_call(I, f, sys2, st, c.obj)
+    along = sum(xdv.vel[0][i] * (-nrm[i]) for i in range(3))
+    # frame[0] points from geom1 (world) to geom2 (body)?  brax uses -frame[0] as the direction applied to the first body; the body is link_idx[1],
+    # which receives -p: so the body's delta-v is along +frame[0] ... stated sign-agnostically: the body moves AWAY from the penetrated side, i.e.
+    # its delta-v has non-negative component along the contact normal frame[0] and no tangential component (it is at rest)
+    lat = [xdv.vel[0][i] - (sum(xdv.vel[0][m] * nrm[m] for m in range(3))) * nrm[i] for i in range(3)]
+    goal = [sum(xdv.vel[0][i] * nrm[i] for i in range(3)) >= 0] + [e == 0 for e in lat]
+    return pre, goal
+  return smt_custom('C06/spring.collisions.resolve/push_only', 'brax.spring.collisions:resolve',
+                    'a body at rest penetrating the world (dist < 0): its delta-velocity has a non-negative component along the contact normal (pointing from the world geom '
+                    'to the body geom) and no lateral component: only pushed out, never pulled in', body, timeout=200, budget=600)
+
+
+def bounded(tier):
+  def run():
+    evals = 0
+    distinct = set()
+    for pipeline in ('spring', 'positional', 'generalized'):
+      r = _native_separated(pipeline)
+      evals += 1
+      distinct.add((pipeline, 'separated'))
+      if r['reproduced']:
+        return Result(REFUTED, '%s: a separated scene steps differently with collision geometry enabled (%g)' % (pipeline, r['max_difference_separated_vs_no_collision_geometry']), replay=r)
+      r = _native_limits(pipeline)
+      evals += 1
+      distinct.add((pipeline, 'limits'))
+      if r['reproduced']:
+        return Result(REFUTED, '%s: unreached joint limits change the motion (%g)' % (pipeline, r['max_difference']), replay=r)
+      for wc in (False, True):
+        r = _native_unit(pipeline, wc)
+        evals += 1
+        distinct.add((pipeline, 'unit', wc))
+        if r['reproduced']:
+          return Result(REFUTED, '%s: link rotations are not unit after 20 steps (collidable geoms: %s): %s' % (pipeline, wc, r), replay=r)
+    d = _drops(tier)
+    if d.get('reproduced'):
+      return Result(REFUTED, 'drop test: %s' % d['what'], replay=d)
+    evals += d['evaluations']
+    return Result(PROVED, 'bounded: separated-vs-disabled, limits-removed, unit rotations for 3 pipelines; %d drop histories (resting height, sinking, push-only, rebound)' % d['evaluations'],
+                  stats={'evaluations': evals, 'distinct_nontrivial': len(distinct) + d['evaluations']})
+  return Obligation('C06/bounded/scenes_and_drops', 'brax.{generalized,spring,positional}.pipeline:step', 'BOUNDED: separated scene vs collisions disabled; unreached limits vs no limits; '
+                    'unit rotations; spheres/boxes/capsules dropped on the ground: never sink more than a few cm, rest at the analytic height, rebound ratio ~ elasticity',
+                    run, backend='bounded', kind='bounded', budget=2400)
+
+
+def _drops(tier):
+  import importlib
+  from brax.io import mjcf
+  rng = np.random.RandomState(seed() + 23)
+  n = 2 if tier == 'quick' else 12
+  evals = 0
+  for k in range(n):
+    shape = ('sphere', 'box', 'capsule')[k % 3]
+    r = float(rng.uniform(0.05, 0.3))
+    size = {'sphere': '%g' % r, 'box': '%g %g %g' % (r, r, r), 'capsule': '%g %g' % (r * 0.5, r)}[shape]
+    quat = '0.7071068 0 0.7071068 0' if shape == 'capsule' else '1 0 0 0'
+    rest_h = {'sphere': r, 'box': r, 'capsule': r * 0.5}[shape]
+    h0 = rest_h + float(rng.uniform(0.0, 0.5))
+    dens = float(rng.uniform(200, 3000))
+    xml = ('<mujoco><option timestep="0.002"/><worldbody><geom name="floor" type="plane" size="5 5 0.1"/>'
+           '<body name="a" pos="0 0 %g" quat="%s"><freejoint/><geom type="%s" size="%s" density="%g"/></body></worldbody></mujoco>' % (h0, quat, shape, size, dens))
+    sys = mjcf.loads(xml)
+    for pipeline in ('spring', 'positional', 'generalized'):
+      pl = importlib.import_module('brax.%s.pipeline' % pipeline)
+      st = pl.init(sys, sys.init_q, jp.zeros(6))
+
+      def roll(s, _):
+        s = pl.step(sys, s, jp.zeros(0))
+        return s, s.x.pos[0, 2]
+      _, zs = jax.jit(lambda s: jax.lax.scan(roll, s, None, length=1500))(st)
+      zs = np.asarray(zs)
+      evals += 1
+      if not np.isfinite(zs).all():
+        return {'reproduced': True, 'what': '%s %s: non-finite height' % (pipeline, shape), 'xml': xml}
+      if zs.min() < rest_h - 0.05:
+        return {'reproduced': True, 'what': '%s %s sinks to %.3f (rest height %.3f)' % (pipeline, shape, zs.min(), rest_h), 'xml': xml}
+      if abs(zs[-1] - rest_h) > 0.03:
+        return {'reproduced': True, 'what': '%s %s rests at %.3f, analytic %.3f' % (pipeline, shape, zs[-1], rest_h), 'xml': xml}
+  return {'reproduced': False, 'evaluations': evals}
+
+
 def obligations(tier):
-  return []
+  Q, Th = ('quick', 'thorough'), ('thorough',)
+  obs = [spring_limits_inert('h', Q), spring_limits_inert('s', Q), spring_limits_inert('hh', Th), spring_limits_inert('hhh', Th), spring_limits_inert('ss', Th),
+         positional_limits_inert('h', Q), positional_limits_inert('s', Q), positional_limits_inert('hh', Th),
+         contact_inert('spring', 1, Q), contact_inert('spring', 2, Q), contact_inert('positional', 1, Q), contact_inert('positional', 2, Th),
+         generalized_masks(), imp_aref_range(), generalized_force_inert(),
+         unit_rot('spring', False, Q), unit_rot('spring', True, Q), unit_rot('positional', False, Q), unit_rot('positional', True, Q),
+         integrate_unit('spring'), integrate_unit_ring(), push_only('spring'), bounded(tier)]
+
+  def canary(A):
+    # limits inert WITHOUT the precondition (coordinate may be outside the range) must be refuted
+    from verif.engine.opaque import cut
+    from brax.spring import joints
+    link, j, jd, mk, tau, raw = _link_dof(A, 1, 'h', True)
+    H = {t: cuts.uf_handler(t.split(':')[1]) for t in UFCUTS}
+    with cut(*UFCUTS):
+      f1 = sym_call(Interp(A, cuts=H), joints._one_dof, link, j, jd, mk(True), tau)
+      f2 = sym_call(Interp(A, cuts=H), joints._one_dof, link, j, jd, mk(False), tau)
+    return [], [a == b for a, b in zip(f1.ang, f2.ang)]
+  obs.append(smt_custom('C06/canary/limits_inert_without_precondition', 'brax.spring.joints:_one_dof', 'CANARY: limits never matter (must be refuted)', canary, kind='canary'))
+  return obs
